@@ -303,6 +303,17 @@ def check(ctx: Ctx) -> None:
     from ..idioms import check_no_persistent_buffers
     check_no_persistent_buffers(ctx, 'C02.i', [OF], floor=10)
     _check_used_index_set(ctx)
+    # ------------------------------------------------------------------ C02.k
+    from ..idioms import check_range_guard
+    ctx.rule('C02.k', 'the validity guard of set_parameters rejects a cyclic prefix exactly when it is negative or LONGER than the FFT size '
+                      '(cp_size == fft_size and cp_size == 0 are valid configurations): decided for every order position of cp_size', floor=1)
+    sp = M.func(OF, 'OFDM.set_parameters')
+    ps_ = [p_ for p_ in sp.params if p_ != 'self']
+    if len(ps_) < 2:
+        ctx.error('C02.k: OFDM.set_parameters no longer takes (fft_size, cp_size, ...) (cannot tell)')
+    check_range_guard(ctx, 'C02.k', sp, ps_[1], ['0', ps_[0]],
+                      {'below 0': True, 'at 0': False, 'between 0 and %s' % ps_[0]: False, 'at %s' % ps_[0]: False, 'above %s' % ps_[0]: True},
+                      'raise', 'every cp size from 0 to the FFT size inclusive is a valid configuration, and only those')
 
 
 def thorough(ctx: Ctx) -> None:
